@@ -214,7 +214,7 @@ CONCRETE = {"use_bias": True, "activation": None, "return_sequences": False, "re
             "go_backwards": False, "stateful": False, "unroll": False, "time_major": False, "reset_after": False,
             "center": True, "scale": True, "renorm": False, "virtual_batch_size": None, "adjustment": None,
             "fused": None, "dropout": 0.0, "recurrent_dropout": 0.0, "implementation": 1, "unit_forget_bias": True,
-            "mask": None, "total_bits": 8, "data_format": "channels_last", "padding": "valid",
+            "mask": None, "total_bits": 5, "data_format": "channels_last", "padding": "valid",
             "ema_freeze_delay": None, "folding_mode": "ema_stats_folding", "symmetric": True,
             "po2_rounding": False, "relu_neg_slope": 0, "relu_upper_bound": None, "current_step": None,
             "ema_decay": 0.9999, "quantization_delay": 0, "per_channel": False, "axis": -1, "groups": 1,
